@@ -369,3 +369,29 @@ T('c14-twin-unique-restack-dedup', 'C14', 'sample.py', "            return sampl
 M('c02-tail-by-difference', ['C02'], 'svd.py', "    where = np.where(np.cumsum(ss[::-1]**2) <= e**2)[0]\n    dlen = 0 if len(where) == 0 else int(1 + where[-1])\n    r = max(1, min(int(r), len(s) - dlen))", "    energy = np.cumsum(ss**2)\n    dlen = int(np.count_nonzero(energy[-1] - energy[:-1] <= e**2))\n    r = max(1, min(int(r), len(s) - dlen))")
 M('c15-value-kwargs-derived', 'C15', 'optima.py', "    y2 = teneva.get(Y, i2)", "    y2 = teneva.get(Z, i=i2)")
 T('c15-twin-value-kwargs', 'C15', 'optima.py', "    y2 = teneva.get(Y, i2)", "    y2 = teneva.get(Y, i=i2)")
+
+
+# ------------------------------------------------------------------ round e rules
+M('c13-relnoise-truthy', 'C13', 'anova.py', "        if rel_noise is not None:", "        if rel_noise:")
+T('c13-twin-relnoise-none', 'C13', 'anova.py', "        if rel_noise is not None:\n            noise = rel_noise * max(abs(self.y_max), abs(self.y_min))", "        if rel_noise is None:\n            pass\n        else:\n            noise = max(abs(self.y_max), abs(self.y_min)) * rel_noise")
+M('c01-mean-intprod', 'C01', 'act_one.py', None, None,
+  edits=[("            p = np.ones(k) / k if norm else np.ones(k)", "            p = np.ones(k)"),
+         ("    return Z[0, 0]\n\n\ndef norm", "    return Z[0, 0] / np.prod(teneva.shape(Y)) if (norm and P is None) else Z[0, 0]\n\n\ndef norm")])
+M('c03-sqrt-before-clamp', ['C03', 'C02', 'C11'], 'svd.py', "    w[w < 0] = 0.\n    w = np.sqrt(w)", "    w = np.sqrt(w)\n    w[w < 0] = 0.")
+T('c03-twin-clamp-flip', ['C03', 'C02', 'C11'], 'svd.py', "    w[w < 0] = 0.\n    w = np.sqrt(w)", "    w[0. > w] = 0.\n    w = np.sqrt(w)")
+M('c06-count-inside-if', ['C06', 'C05'], 'cross.py', "            cache[tuple(i)] = float(y_new[k])\n\n    info['m'] += len(I_new)\n    info['m_cache'] += len(I) - len(I_new)\n", "            cache[tuple(i)] = float(y_new[k])\n        info['m'] += len(I_new)\n        info['m_cache'] += len(I) - len(I_new)\n")
+M('c10-empty-like-ifexp', 'C10', 'als.py', "def _optimize_core(Q, i, y_trn, Yl, Yr, lamb, w, update_sol=None):\n    Q = Q.copy()", "def _optimize_core(Q, i, y_trn, Yl, Yr, lamb, w, update_sol=None):\n    Q = Q.copy() if update_sol is not None else np.empty_like(Q)")
+M('c15-cheb-t0-early', 'C15', 'optima_func.py', "    res = np.ones([X.shape[0], n])\n    if n > 1:", "    res = np.ones([X.shape[0], n])\n    res[:, 0] = np.sqrt(0.5)\n    if n > 1:")
+M('c12-basis-recurrence-sign', 'C12', 'func.py', "        T[k] = 2. * X * T[k - 1] - T[k - 2]", "        T[k] = 2. * X * T[k - 1] + T[k - 2]")
+T('c12-twin-basis-recurrence', 'C12', 'func.py', "        T[k] = 2. * X * T[k - 1] - T[k - 2]", "        T[k] = -T[k - 2] + T[k - 1] * X * 2")
+M('c19-delta-onehot', 'C19', 'tensors.py', "    Y = [np.zeros([1, k, 1]) for k in n]\n    for k in range(d):\n        Y[k][0, i[k], 0] = v\n", "    Y = [v * (np.arange(k) == j).reshape(1, -1, 1) for k, j in zip(n, i)]\n")
+M('c02-skip-rank1-bond', 'C02', 'transformation.py', "        r1, n, r2 = Z[k].shape\n        G = teneva._reshape(Z[k], (r1, n * r2))\n        if is_eigh:", "        r1, n, r2 = Z[k].shape\n        if r1 == 1:\n            continue\n        G = teneva._reshape(Z[k], (r1, n * r2))\n        if is_eigh:")
+M('c07-skip-refresh', 'C07', 'als.py', "                Y[k] = _optimize_core(Y[k], i, y_trn, Yl[k], Yr[k],\n                    lamb=lamb, w=w, update_sol=update_sol)\n                contract('jk,kjl->jl', Yl[k], Y[k][:, i, :], out=Yl[k+1])", "                Q = _optimize_core(Y[k], i, y_trn, Yl[k], Yr[k],\n                    lamb=lamb, w=w, update_sol=update_sol)\n                if np.array_equal(Q, Y[k]):\n                    continue\n                Y[k] = Q\n                contract('jk,kjl->jl', Yl[k], Y[k][:, i, :], out=Yl[k+1])")
+T('c07-twin-refresh-tmp', 'C07', 'als.py', "                Y[k] = _optimize_core(Y[k], i, y_trn, Yl[k], Yr[k],\n                    lamb=lamb, w=w, update_sol=update_sol)\n                contract('jk,kjl->jl', Yl[k], Y[k][:, i, :], out=Yl[k+1])", "                Q = _optimize_core(Y[k], i, y_trn, Yl[k], Yr[k],\n                    lamb=lamb, w=w, update_sol=update_sol)\n                Y[k] = Q\n                contract('jk,kjl->jl', Yl[k], Q[:, i, :], out=Yl[k+1])")
+M('c17-packbits', 'C17', 'grid.py', "        I_qtt_curr = I_qtt[:, q*i:q*(i+1)].T\n        I[:, i] = np.ravel_multi_index(I_qtt_curr, n, order='F')", "        I_qtt_curr = I_qtt[:, q*i:q*(i+1)]\n        I[:, i] = np.packbits(I_qtt_curr, axis=1, bitorder='little')[:, 0]")
+M('c20-cap-intprod', 'C20', 'svd.py', "        r1 = r if mode < d-1 else 1", "        r1 = min(r, np.prod(shapes[mode+1:]))")
+T('c19-twin-delta-onehot-mod', 'C19', 'tensors.py', "    Y = [np.zeros([1, k, 1]) for k in n]\n    for k in range(d):\n        Y[k][0, i[k], 0] = v\n", "    Y = [v * (np.arange(k) == j % k).reshape(1, -1, 1) for k, j in zip(n, i)]\n")
+T('c03-twin-sqrt-maximum', ['C03', 'C02', 'C11'], 'svd.py', "    w[w < 0] = 0.\n    w = np.sqrt(w)", "    w = np.sqrt(np.maximum(w, 0.))")
+T('c01-twin-mean-floatprod', 'C01', 'act_one.py', None, None,
+  edits=[("            p = np.ones(k) / k if norm else np.ones(k)", "            p = np.ones(k)"),
+         ("    return Z[0, 0]\n\n\ndef norm", "    return Z[0, 0] / np.prod(np.asarray(teneva.shape(Y), dtype=float)) if (norm and P is None) else Z[0, 0]\n\n\ndef norm")])
